@@ -925,6 +925,33 @@ def premise_entry(ctx, rule="E", sizes=((FIVE, 5), (SIX, 6), (SEVEN, 7)), gate_t
         sm = ctx.summ(key, [("v", a)], None, opaque={k_g})
         r = sm.ret
         ok = r[0] == "call" and r[1] == "fn:" + k_g and arr_of(r[2][0]) is not None and all(x is y for x, y in zip(arr_of(r[2][0]), slot_atoms(5)))
+        if not ok:
+            # not a call of the validated method: the same thing spelled out — `if is_valid(five) { value(five) } else
+            # { 0 }` on a Five made of the same five words in the same slots — is accepted when it is exactly that
+            k_valid5, _ = ctx.method(FIVE, "is_valid", HV)
+            k_and5, _ = ctx.method(FIVE, "hand_rank_value_and_hand", HR)
+            k_v5, sty_v5 = ctx.method(FIVE, "hand_rank_value", HR)
+            h5 = ctx.hand(FIVE, 5)
+            ref5 = ctx.summ(k_v5, [("r", h5)], sty_v5, opaque={k_and5}).ret
+            sm2 = ctx.summ(key, [("v", a)], None, opaque={k_and5, k_valid5})
+            r2 = sm2.ret
+            vc = [x for x in walk(r2) if x[0] == "call" and x[1] == "fn:" + k_valid5]
+            if gate_total:
+                # and the ranking only *runs* behind the validity test (it may panic on words that are not cards)
+                for cal, snap, gs_ in sm2.ex.opaque_calls:
+                    if cal != k_and5:
+                        continue
+                    env = {"$fn:" + k_valid5: (lambda a_: C(0, "bool"))}
+                    env.update({"s%d" % i: 100 + i for i in range(5)})
+                    try:
+                        reach = all(cval(evaluate(pdb, c, env)) for c in gs_)
+                    except Uncertified:
+                        reach = True
+                    if reach:
+                        vc = []
+            r_t = substitute(r2, lambda nd: TRUE if (nd[0] == "call" and nd[1] == "fn:" + k_valid5) else None)
+            r_f = substitute(r2, lambda nd: FALSE if (nd[0] == "call" and nd[1] == "fn:" + k_valid5) else None)
+            ok = bool(vc) and all(x[2][0] is h5 for x in vc) and r_t is ref5 and r_f[0] == "c" and r_f[1] == 0
         rep.ob(rule + ".free-function", "evaluate::five_cards", ok, "evaluate::five_cards is not validated ranking of the same five words in the same slots", pdb.where(key))
     ctx.guard(rule + ".free", free)
 
@@ -2712,7 +2739,8 @@ def check_C04(ctx):
             bodies.append((kvv, styv, ctx.hand(path, n), opq))
             krv, styr = ctx.method(path, "hand_rank_validated", HR)
             bodies.append((krv, styr, ctx.hand(path, n), opq | {kvv}))
-        bodies.append(("evaluate::five_cards", None, agg(("array",), slot_atoms(5)), {ctx.method(FIVE, "hand_rank_value_validated", HR)[0]}))
+        bodies.append(("evaluate::five_cards", None, agg(("array",), slot_atoms(5)), {ctx.method(FIVE, "hand_rank_value_validated", HR)[0], ctx.method(FIVE, "is_valid", HV)[0],
+                                                                                      ctx.method(FIVE, "hand_rank_value_and_hand", HR)[0], ctx.method(FIVE, "hand_rank_value", HR)[0]}))
         for key_, sty_, arg_, opq in bodies:
             sm_ = ctx.summ(key_, [("r" if sty_ is not None or key_ != "evaluate::five_cards" else "v", arg_)], sty_, opaque=opq)
             for o in sm_.obligations:
